@@ -114,6 +114,19 @@ func nativeReplay(rf *ReplayFile, timeout time.Duration) ([]string, string, erro
 			res[begun] = "fatal process died"
 		}
 	}
+	// a vector that killed the process (fatal error, timeout) leaves the later
+	// ones unrun: replay those in a fresh process
+	if begun >= 0 && begun+1 < len(res) && res[begun+1] == "" && (strings.HasPrefix(res[begun], "fatal") || res[begun] == "timeout") {
+		rest := *rf
+		rest.Vectors = rf.Vectors[begun+1:]
+		if len(rf.Expect) > begun+1 {
+			rest.Expect = rf.Expect[begun+1:]
+		}
+		more, _, err := nativeReplay(&rest, timeout)
+		if err == nil {
+			copy(res[begun+1:], more)
+		}
+	}
 	if begun < 0 && len(rf.Vectors) > 0 {
 		tail := text
 		if len(tail) > 3000 {
